@@ -1,7 +1,7 @@
 (* Property C04 — theorems only. Each is closed by [exact] and followed by Print Assumptions. *)
 From Coq Require Import List NArith ZArith Bool.
 From RopeVerif.Lib Require Import Text.
-From RopeVerif.C04 Require Import Inline InlineProofs Expr ExprProofs Call CallProofs Receiver ReceiverProofs.
+From RopeVerif.C04 Require Import Inline InlineProofs Expr ExprProofs Call CallProofs Rename RenameProofs Splice SpliceProofs Receiver ReceiverProofs.
 Import ListNotations.
 
 (* ------------------------------------------------------------------------------------------------
@@ -230,3 +230,112 @@ Example C04_receiver_chain :
   = Some [97;112;112;46;104;117;98;46;115;116;111;114;101]%N.
 Proof. exact receiver_chain. Qed.
 Print Assumptions C04_receiver_chain.
+
+(* ------------------------------------------------------------------------------------------------
+   The name-conflict step of _calculate_definition (Rename.v): when a name the guest module (header + body)
+   defines is also a name of the scope of the call site, every occurrence of every guest name is given the
+   `__N__` spelling, then the header names are inlined.
+
+   Renaming is alpha-equivalence: a renaming that is injective on the names a program uses does not change what it
+   prints when the environment is renamed along. *)
+Theorem C04_rename_alpha :
+  forall r U, inj_on r U -> forall p env env',
+    incl (uses p) U -> (forall x, In x U -> env' (r x) = env x) ->
+    output (map (ren_stmt r) p) env' = output p env.
+Proof. exact rename_alpha. Qed.
+Print Assumptions C04_rename_alpha.
+
+(* Capture-freedom under the modelled condition [side_renamed]: the prefixed spellings are fresh (the renaming is
+   injective on the names of the guest and the identity outside the guest names), every read of a guest name comes
+   after an assignment to it (no argument text mentions a guest name; locals are assigned before they are read),
+   header names distinct, and the side condition of C04_variable_subst holds along the sequence of inlinings.  Then
+   the renamed, parameter-inlined definition prints what the body prints with the arguments evaluated in the
+   caller's environment and bound simultaneously. *)
+Theorem C04_call_renamed_preserves :
+  forall tbl hdr body r,
+    side_renamed tbl hdr body r = true ->
+    exists q, inline_header (map r (map fst hdr)) (map (ren_stmt r) (guest tbl hdr body)) = Some q /\
+              forall env, output q env = call_output tbl hdr body env.
+Proof. exact call_renamed_preserves. Qed.
+Print Assumptions C04_call_renamed_preserves.
+
+(* _calculate_definition as a whole (conflict detection included), up to the replacement of returns *)
+Theorem C04_definition_preserves :
+  forall tbl hdr body host ptbl,
+    (if conflict (all_names hdr body) host
+     then side_renamed tbl hdr body (table_ren ptbl (all_names hdr body))
+     else side_call tbl hdr body) = true ->
+    exists q, calculate_definition tbl hdr body host ptbl = Some q /\
+              forall env, output q env = call_output tbl hdr body env.
+Proof. exact definition_preserves. Qed.
+Print Assumptions C04_definition_preserves.
+
+(* the renamed form of argument capture (open finding C04-method-arg-capture): `a = 1; f(a + 1)` for
+   `def f(a): print(a)` becomes `print(__0__a + 1)` *)
+Theorem C04_definition_capture_refuted :
+  exists tbl hdr body host ptbl q env,
+    conflict (all_names hdr body) host = true /\
+    calculate_definition tbl hdr body host ptbl = Some q /\
+    def_before_read (all_names hdr body) [] (guest tbl hdr body) = false /\
+    output q env <> call_output tbl hdr body env.
+Proof. exact definition_capture_refuted. Qed.
+Print Assumptions C04_definition_capture_refuted.
+
+Example C04_definition_preserves_nontrivial :
+  let tbl := [(21%N, [(false, [AVar 11; ANum 3])])] in
+  let hdr := [(1%N, 21%N)] in
+  let body := [SAssign 9 [(false, [AVar 1; ANum 2])]; SPrint [nmv 9; [(false, [AVar 1]); (true, [ANum 3])]]] in
+  let ptbl := [(1%N, 101%N); (9%N, 109%N)] in
+  conflict (all_names hdr body) [9%N; 11%N] = true /\
+  side_renamed tbl hdr body (table_ren ptbl (all_names hdr body)) = true /\
+  calculate_definition tbl hdr body [9%N; 11%N] ptbl =
+    Some [SAssign 109 [(false, [AVar 11; ANum 3; ANum 2])];
+          SPrint [nmv 109; [(false, [AVar 11; ANum 3]); (true, [ANum 3])]]].
+Proof. exact definition_preserves_nontrivial. Qed.
+Print Assumptions C04_definition_preserves_nontrivial.
+
+(* ------------------------------------------------------------------------------------------------
+   C04_call_preserves: the host module around the call, for a call that is a whole statement `f(args)` or the
+   right-hand side of an assignment `y = f(args)` in a straight-line host  pre; <site>; post  (Splice.v: the
+   definition text replaces / precedes the line, `return e` is dropped resp. becomes `y = e`).
+   Reference [ref_host]: Python's call -- arguments evaluated in the caller, bound simultaneously in a new
+   environment, nothing the function assigns visible to the caller, the value of the call is the returned
+   expression.  Hypotheses, all computable: the site is in the domain of C04_definition_preserves
+   ([domain_site]) and the names the inlined text assigns are not used by the rest of the host ([frame_ok];
+   this is what the `__N__` renaming is for, see C04_call_frame_refuted).
+   Not covered: calls nested in larger expressions, hosts with control flow, indentation, imports. *)
+Theorem C04_call_preserves :
+  forall pre kind post tbl hdr body ret host ptbl d,
+    inline_site kind tbl hdr body ret host ptbl = Some d ->
+    domain_site tbl hdr body ret host ptbl = true ->
+    frame_ok kind d post = true ->
+    forall env, output (pre ++ d ++ post) env = ref_host pre kind post tbl hdr body ret env.
+Proof. exact call_preserves_full. Qed.
+Print Assumptions C04_call_preserves.
+
+Example C04_call_preserves_nontrivial :
+  let tbl := [(21%N, [(false, [AVar 11; ANum 3])])] in
+  let hdr := [(1%N, 21%N)] in
+  let body := [SAssign 9 [(false, [AVar 1; ANum 2])]] in
+  let ret := Some [(false, [AVar 9]); (false, [AVar 1])] in
+  let pre := [SAssign 11 (num 2); SAssign 9 (num 5)] in
+  let post := [SPrint [nmv 12; nmv 9]] in
+  let host := [9%N; 11%N; 12%N] in
+  let ptbl := [(1%N, 101%N); (9%N, 109%N)] in
+  let d := [SAssign 109 [(false, [AVar 11; ANum 3; ANum 2])];
+            SAssign 12 [(false, [AVar 109]); (false, [AVar 11; ANum 3])]] in
+  inline_site (KAssign 12) tbl hdr body ret host ptbl = Some d /\
+  domain_site tbl hdr body ret host ptbl = true /\ frame_ok (KAssign 12) d post = true /\
+  ref_host pre (KAssign 12) post tbl hdr body ret (fun _ => 0%Z) = [[18%Z; 5%Z]].
+Proof. exact call_preserves_nontrivial. Qed.
+Print Assumptions C04_call_preserves_nontrivial.
+
+(* the frame condition is necessary: if the host scope were not consulted (host = []), a local of the function
+   overwrites the host's variable of the same name *)
+Theorem C04_call_frame_refuted :
+  exists pre kind post tbl hdr body ret d env,
+    inline_site kind tbl hdr body ret [] [] = Some d /\
+    domain_site tbl hdr body ret [] [] = true /\ frame_ok kind d post = false /\
+    output (pre ++ d ++ post) env <> ref_host pre kind post tbl hdr body ret env.
+Proof. exact frame_needed. Qed.
+Print Assumptions C04_call_frame_refuted.
